@@ -1081,8 +1081,12 @@ impl MDBShardInfo {
                 file_lookup.push((truncate_hash(&file_metadata.file_hash), index));
                 index += (1 + num_entries + n_extended_bytes / MDB_FILE_INFO_ENTRY_SIZE) as u32;
             } else {
-                // Discard values until the next reader break.
-                copy(&mut reader.take(n_extended_bytes as u64), &mut std::io::sink())?;
+                // Discard the whole record: the segment entries as well as the verification and
+                // metadata entries.  (Skipping only the latter leaves the segment entries to be
+                // re-read as if they were file headers, which mis-parses any entry whose flag
+                // word has the verification / metadata bits set.)
+                let n_skip_bytes = num_entries * size_of::<FileDataSequenceEntry>() + n_extended_bytes;
+                copy(&mut reader.take(n_skip_bytes as u64), &mut std::io::sink())?;
             }
         }
 
